@@ -273,7 +273,9 @@ def rule_g7(repo):
     need(stores, '_add_edge_proof_forest: no store into the proof forest inside the loop')
     for s_ in stores:
         v = s_.value
-        parent = v.elts[0] if isinstance(v, ast.Tuple) and v.elts else None
+        # the new parent: the first component of a written-out pair; a pair that comes ready-made (an element of a list prepared before the
+        # loop) varies with the loop if the stored value does
+        parent = v.elts[0] if isinstance(v, ast.Tuple) and v.elts else v
         names = {x.id for x in ast.walk(parent) if isinstance(x, ast.Name)} if parent is not None else set()
         # varies with the loop: mentions the loop variable, or a name that is (re)assigned inside the loop
         def depends(nm, seen=()):
